@@ -43,7 +43,33 @@ import (
 
 var r *vk.Run
 
-const workRoot = "/verif/.work/c29/data"
+// coreDeadline ends the BFS phases (their share of the budget); the large-batch phase runs after it on its own share.
+var coreDeadline time.Time
+
+func coreExpired() bool {
+	if r.Expired() {
+		return true
+	}
+	if !coreDeadline.IsZero() && time.Now().After(coreDeadline) {
+		r.MarkCapped()
+		return true
+	}
+	return false
+}
+
+// workRoot is private to the process: two runs at the same time (a mutant demo next to a plain run) must not wipe each
+// other's database files.
+var workRoot = fmt.Sprintf("/verif/.work/c29/data-%d", os.Getpid())
+
+// sweepStale removes data directories left by killed runs (older than an hour).
+func sweepStale() {
+	ds, _ := filepath.Glob("/verif/.work/c29/data*")
+	for _, d := range ds {
+		if fi, err := os.Stat(d); err == nil && time.Since(fi.ModTime()) > time.Hour {
+			os.RemoveAll(d)
+		}
+	}
+}
 
 const nShards = 16 // fixed (not GOMAXPROCS): the physical history of every disk instance is deterministic
 
@@ -708,7 +734,8 @@ type env struct {
 	bounds      [][]byte // iterator bound menu (nil included)
 	ops         []op
 	sync        bool
-	reopenEvery int // close/reopen check at every n-th state of a level (disk backends)
+	reopenEvery int  // close/reopen check at every n-th state of a level (disk backends)
+	noReverse   bool // observe: skip the full reverse iteration (large-batch phase: done on every 8th batch only)
 }
 
 // observe compares everything cheap: point reads and the two full iterations; returns the raw observation digest.
@@ -719,6 +746,9 @@ func (e *env) observe(in *inst, m *model, obs *strings.Builder) *mismatch {
 	}
 	all := sortedKVs(m.R)
 	for _, asc := range []bool{true, false} {
+		if !asc && e.noReverse {
+			continue
+		}
 		if mmx := checkIter(in.R, nil, nil, asc, rangeOf(all, nil, nil, asc), obs, ""); mmx != nil {
 			return mmx
 		}
@@ -950,7 +980,7 @@ func explore(e *env, maxDepth int, tag string) sstats {
 		r.ParFor(nShards, func(sh int) {
 			sc := shards[sh]
 			for pi := sh; pi < len(frontier); pi += nShards {
-				if r.Expired() || stop.Load() {
+				if coreExpired() || stop.Load() {
 					stop.Store(true)
 					return
 				}
@@ -1415,6 +1445,13 @@ func bs(ss ...string) [][]byte {
 func main() {
 	r = vk.New("model_checking")
 	r.SetBudget(85*time.Second, 20*time.Minute)
+	// budget shares: the BFS phases (1-4) stop at coreDeadline, the large-batch phase (5) gets what is left, at most `share`
+	share := 20 * time.Second
+	coreDeadline = time.Now().Add(65 * time.Second)
+	if r.Thorough() {
+		share = 4 * time.Minute
+		coreDeadline = time.Now().Add(16 * time.Minute)
+	}
 	log.SetOutput(io.Discard) // pebble's default logger reports WAL replays on reopen
 	if r.ReplayIn != "" {
 		// violation keys are class-stable ("<subject>: <mismatch class>"); the artefact holds the BFS-minimal history.
@@ -1422,6 +1459,7 @@ func main() {
 		b, _ := os.ReadFile(r.ReplayIn)
 		fmt.Printf("replay artefact:\n%s\nre-running the quick exploration:\n", b)
 	}
+	sweepStale()
 	os.RemoveAll(workRoot)
 	os.MkdirAll(workRoot, 0o755)
 
@@ -1499,9 +1537,6 @@ func main() {
 	for _, s := range asubj {
 		probes += aliasProbes(s, false)
 	}
-	// 2b. large batches (13..20 operations) staging one key several times: every subject
-	bigPer, bigTotal := runBigBatches(append(append([]*subject{}, subjects...), csubjects...), th)
-	tot.transitions += bigTotal
 	// 3. CollectingDB
 	cops := buildAlphabet(ckeys, bs("a"), true)
 	for _, s := range csubjects {
@@ -1523,6 +1558,14 @@ func main() {
 		if s.disk {
 			run(s, &env{s: s, keys: readKeys, bounds: bounds, ops: dops}, -1, "")
 		}
+	}
+	// 5. large batches (13..20 operations) staging one key several times: every subject. Last, on its own share of the
+	// budget (quick 20 s, thorough 4 min; less if the phases before used more than expected).
+	bigPer, bigTotal, bigComplete := runBigBatches(append(append([]*subject{}, subjects...), csubjects...), th, share)
+	tot.transitions += bigTotal
+	if !bigComplete {
+		exhaustive = false
+		r.MarkCapped()
 	}
 	os.RemoveAll(workRoot)
 	r.EvalN(tot.transitions)
